@@ -176,19 +176,27 @@ def equivalent(f: Formula, g: Formula, limit: int = 16384, seed: int = 0):
     Atoms are independent variables.  If the atom sets differ the union is used, so an atom
     that appears on one side only must be irrelevant there for equivalence to hold.  Both sides
     are evaluated on all rows at once (bit-parallel truth table)."""
-    keys = atoms(f)
-    for k in atoms(g):
-        if k not in keys:
-            keys.append(k)
-    cols, rows, exhaustive = _columns(keys, limit, seed)
-    full = (1 << rows) - 1
-    diff = _bits(f, cols, full) ^ _bits(g, cols, full)
-    if diff == 0:
-        return True, None, exhaustive
-    r = (diff & -diff).bit_length() - 1
-    env = {k: bool((cols[k] >> r) & 1) for k in keys}
-    assert evaluate(f, env) != evaluate(g, env)
-    return False, env, exhaustive
+    import sys
+    old_limit = sys.getrecursionlimit()
+    # the evaluators recurse over the formula; decoded queries with long value lists are deep right-nested
+    # chains, so the limit is raised for the comparison only (the code under test keeps the default)
+    sys.setrecursionlimit(max(old_limit, 50000))
+    try:
+        keys = atoms(f)
+        for k in atoms(g):
+            if k not in keys:
+                keys.append(k)
+        cols, rows, exhaustive = _columns(keys, limit, seed)
+        full = (1 << rows) - 1
+        diff = _bits(f, cols, full) ^ _bits(g, cols, full)
+        if diff == 0:
+            return True, None, exhaustive
+        r = (diff & -diff).bit_length() - 1
+        env = {k: bool((cols[k] >> r) & 1) for k in keys}
+        assert evaluate(f, env) != evaluate(g, env)
+        return False, env, exhaustive
+    finally:
+        sys.setrecursionlimit(old_limit)
 
 
 def show(f: Formula) -> str:
